@@ -12,11 +12,12 @@ RULE = ("every tuple (idA,idB,X,Y,K,pw) in ALPHA^6 and (idS,m1,m2,K,pw) in ALPHA
 ASSUMPTIONS = ["hashlib.sha256 is SHA-256"]
 EXHAUSTIVE = True
 ALPHA = [b"", b"a", b"b", b"aa", b"ab", b"ba", b"bb"]
+ALPHA_THOROUGH = ALPHA + [b"\x00", b"\xff", b"a\x00"]
 EXTRA = [b"\x7f", b"\x80", b"\x00", b"\xff", b"a\x00", b"ab", b"a", b"", b"\x00\x00"]
 
 
 def bounds(tier):
-    return {"alphabet": [a.decode() for a in ALPHA], "tuple_arity": [6, 5]}
+    return {"alphabet": [a.hex() for a in (ALPHA if tier == "quick" else ALPHA_THOROUGH)], "tuple_arity": [6, 5]}
 
 
 def sha(b):
@@ -37,18 +38,20 @@ def _asym_task(first):
     acc = Acc()
     f = sp.finalize_SPAKE2
     keys = set()
-    for rest in itertools.product(ALPHA, repeat=5):
-        t = (first,) + rest
+    for rest in itertools.product(ALPHA, repeat=4):
+        t = tuple(first) + rest
         got = T.observe(f, *t)
         exp = ref_asym(*t)
         if got != ("ok", exp):
             acc.violation("C17/asymmetric-formula", {"what": "finalize_SPAKE2 differs from SHA256(SHA256(pw)|SHA256(idA)|SHA256(idB)|X|Y|K)",
                           "replay": {"fn": "asym", "args": list(t)}, "expected": exp, "observed": got})
         keys.add(got[1] if got[0] == "ok" else None)
-    acc.n(states=7 ** 5, transitions=7 ** 5, traces=7 ** 5)
+    n = len(ALPHA) ** 4
+    acc.n(states=n, transitions=n, traces=n)
     for k in keys:
         acc.seen(core.h8(k))
-    acc.sample({"call": "finalize_SPAKE2", "args": list(t), "key": exp})
+    if first == (ALPHA[-1], ALPHA[-1]):
+        acc.sample({"call": "finalize_SPAKE2", "args": list(t), "key": exp})
     return acc
 
 
@@ -69,7 +72,7 @@ def _sym_task(first):
             acc.violation("C17/symmetric-swap", {"what": "finalize_SPAKE2_symmetric is not invariant under exchanging m1 and m2",
                           "replay": {"fn": "sym", "args": [t[0], t[2], t[1], t[3], t[4]]}, "expected": got, "observed": sw})
         keys.add(got[1] if got[0] == "ok" else None)
-    acc.n(states=7 ** 4, transitions=2 * 7 ** 4, traces=7 ** 4)
+    acc.n(states=len(ALPHA) ** 4, transitions=2 * len(ALPHA) ** 4, traces=len(ALPHA) ** 4)
     for k in keys:
         acc.seen(core.h8(k))
     acc.sample({"call": "finalize_SPAKE2_symmetric", "args": list(t), "key": exp})
@@ -123,7 +126,9 @@ def _extra(acc):
 
 def run(tier, seed):
     acc = Acc()
-    core.pmerge(_asym_task, ALPHA, acc)
+    if tier != "quick":
+        ALPHA[:] = ALPHA_THOROUGH
+    core.pmerge(_asym_task, [(a, b) for a in ALPHA for b in ALPHA], acc)
     core.pmerge(_sym_task, ALPHA, acc)
     _extra(acc)
     return acc
